@@ -214,6 +214,8 @@ theorem writeExt_extField {v n : Nat} {e : Bytes} (h : writeExt v = some (n, e))
 same bytes (valid UTF-8 for string options, minimal length for integer options) -/
 def Opt.legal (o : Opt) : Prop := decodeVal o.num o.val = some o.val
 
+instance (o : Opt) : Decidable o.legal := by unfold Opt.legal; exact inferInstance
+
 theorem payloadPart_eq (p : Bytes) : payloadPart p = Rfc8323.payloadBytes p := by
   cases p <;> simp [payloadPart, Rfc8323.payloadBytes]
 
@@ -289,6 +291,8 @@ theorem decodeOptsF_optList {cur : Nat} {opts : List Opt} {ob : Bytes} (payload 
 
 /-- a message the transport carries unchanged: every option value legal for its number -/
 def Msg.legal (m : Msg) : Prop := ∀ o ∈ m.opts, o.legal
+
+instance (m : Msg) : Decidable m.legal := by unfold Msg.legal; exact inferInstance
 
 /-- `_serialize` writes RFC 8323 messages -/
 theorem serialize_message {m : Msg} {b : Bytes} (h : serialize m = some b) :
